@@ -7,14 +7,14 @@
   `perRow f [] p` applies the definition `f pre x post` to every record `x` of `p`, `pre` / `post` being
   the records before / after it.  Every theorem holds for ALL partitions, cell contents, frames, offsets.
 
-  Where the current code violates the property the full statement is kept as a comment, a concrete
-  counterexample on the model of the current code is proved, together with the partial theorem that
-  does hold:
-    * LAST_VALUE reads the frame mirrored around the current row         (pre-finding F14)
-    * NTH_VALUE returns the last visited cell when the frame is too short (new)
-    * an aggregate over an inverted frame panics in windowValues          (new)
-  (Pre-finding F8 — COUNT(*) OVER (…) rejected — has been fixed in /repo; `agg_column_found` holds in
-  full and the harness law `analytic:count_star_over_rejected` guards against its return.)
+  Three defects found by this check have been repaired in /repo (LAST_VALUE read the frame mirrored
+  around the current row — pre-finding F14; NTH_VALUE returned the last visited cell when the frame
+  was too short; an aggregate over an inverted frame panicked in windowValues).  The full statements
+  `last_value_spec`, `nth_value_spec`, `agg_over_spec` now hold for the code that exists
+  (`repoState`); the characterisations of the earlier code (`last_value_mirrored`, `nth_value_code`,
+  `agg_over_partial`) and its counterexamples are kept as the record of the defects, and the harness
+  laws analytic:last_value_frame_mirrored / nth_value_short_frame / inverted_frame_fatal /
+  count_star_over_rejected guard against their return.
   LEAD has no windowing clause in the grammar (parser.y: FUNCTION_WITH_INS … analytic_clause), so the
   reversal it shares with LAST_VALUE is harmless: `lead_spec` holds in full.
 -/
@@ -259,13 +259,13 @@ theorem first_value_spec (cells : Nat → Val) (ign : Bool) (w : Window) (p : Li
   exact scanNth_first cells ign _
 
 /-
-  FULL STATEMENT (false for the current code — F14):
+  FULL STATEMENT, false for the code before the repair (F14) — now `last_value_spec` below:
 
   theorem last_value_spec (cells) (ign) (w) (p) (hp : p.Pairwise (· < ·)) :
       lastValue cells ign w p = (perRow (lastValueSpec cells ign w) [] p).reverse
 -/
 
-/-- what LAST_VALUE computes instead, for every input: the last counted cell of the MIRRORED frame
+/-- what LAST_VALUE computed before the repair, for every input: the last counted cell of the MIRRORED frame
     (`ROWS BETWEEN a PRECEDING AND b FOLLOWING` is read as `BETWEEN b PRECEDING AND a FOLLOWING`; the
     default frame of an ORDER BY without windowing clause as `CURRENT ROW … UNBOUNDED FOLLOWING`).
     (The records come out in reversed order; Analyze stores them by record index.) -/
@@ -314,13 +314,13 @@ theorem last_value_default_frame_counterexample :
   constructor <;> decide
 
 /-
-  FULL STATEMENT (false for the current code):
+  FULL STATEMENT, false for the code before the repair — now `nth_value_spec` below:
 
   theorem nth_value_spec (cells) (ign) (n : Int) (hn : 1 ≤ n) (w) (p) :
       nthValue cells ign n w p = some (perRow (nthValueSpec cells ign n.toNat w) [] p)
 -/
 
-/-- what NTH_VALUE computes, for every input: the n-th counted cell of the frame if there is one,
+/-- what NTH_VALUE computed before the repair, for every input: the n-th counted cell of the frame if there is one,
     otherwise the LAST VISITED cell of the frame (counted or not) instead of NULL -/
 theorem nth_value_code (cells : Nat → Val) (ign : Bool) (n : Int) (hn : 1 ≤ n) (w : Window) (p : List Nat) :
     nthValue cells ign n w p = some (perRow (fun pre x post =>
@@ -394,10 +394,19 @@ theorem nth_value_fixed_spec (cells : Nat → Val) (ign : Bool) (n : Int) (hn : 
   have := scanNthFixed_spec cells ign n.toNat (frameRows w a x b) 0 (by omega)
   simpa [nthValueSpec] using this
 
-/-- the driver's selector is the current code exactly as long as the flags say so -/
-theorem repo_state_is_current_code (cells : Nat → Val) (ign : Bool) (n : Int) (w : Window) (p : List Nat) :
-    lastValueAt repoState cells ign w p = lastValue cells ign w p ∧
-    nthValueAt repoState cells ign n w p = nthValue cells ign n w p := ⟨rfl, rfl⟩
+/-- LAST_VALUE (with or without IGNORE NULLS, every frame), the code that exists: the last counted cell
+    of the row's own frame, NULL if there is none -/
+theorem last_value_spec (cells : Nat → Val) (ign : Bool) (w : Window) (p : List Nat) :
+    lastValueAt repoState cells ign w p = perRow (lastValueSpec cells ign w) [] p := by
+  simp only [lastValueAt, repoState, Bool.false_eq_true, if_false]
+  exact last_value_fixed_spec cells ign w p
+
+/-- NTH_VALUE(expr, n), 1 ≤ n, the code that exists: the n-th counted cell of the row's frame, NULL if
+    the frame holds fewer -/
+theorem nth_value_spec (cells : Nat → Val) (ign : Bool) (n : Int) (hn : 1 ≤ n) (w : Window) (p : List Nat) :
+    nthValueAt repoState cells ign n w p = some (perRow (nthValueSpec cells ign n.toNat w) [] p) := by
+  simp only [nthValueAt, repoState, Bool.false_eq_true, if_false]
+  exact nth_value_fixed_spec cells ign n hn w p
 
 /-! ## LAG / LEAD -/
 
@@ -456,7 +465,7 @@ theorem lead_plain (cells : Nat → Val) (dflt : Val) (offset : Nat) (pre : List
 /-! ## aggregates and user-defined aggregates with OVER -/
 
 /-
-  FULL STATEMENT (false for the current code):
+  FULL STATEMENT, false for the code before the repair — now `agg_over_spec` below:
 
   theorem agg_over_spec (cells) (agg) (w) (p) :
       aggOver cells agg w p = some (perRow (aggSpec cells agg w) [] p)
@@ -478,6 +487,14 @@ theorem agg_over_fixed_spec {β : Type} (cells : Nat → Val) (agg : Nat → Lis
   unfold aggOverFixed
   congr 1
   exact frames_spec (fun idx rows => agg idx (rows.map cells)) w p
+
+/-- aggregates and user-defined aggregates OVER, the code that exists, every frame (empty and inverted
+    ones included): the aggregate of every row receives exactly the cells of the row's frame, in
+    partition order -/
+theorem agg_over_spec {β : Type} (cells : Nat → Val) (agg : Nat → List Val → β) (w : Window) (p : List Nat) :
+    aggOverAt repoState cells agg w p = some (perRow (aggSpec cells agg w) [] p) := by
+  simp only [aggOverAt, repoState, Bool.false_eq_true, if_false]
+  exact agg_over_fixed_spec cells agg w p
 
 /-- the frames that can never be inverted: everything except `BETWEEN x FOLLOWING AND y PRECEDING`-like
     clauses — in particular the default frame, `ROWS n PRECEDING`, and `BETWEEN a PRECEDING AND b FOLLOWING` -/
